@@ -2298,9 +2298,10 @@ class CppEmitter(Visitor):
                 step_cast = self._range_bound(e.args[2], result_ty.elt, ctx)
                 ctr = self._fresh_temp()
                 out, append = self._open_list_build(result_ty)
+                test = self._range3_test(ctr, stop_cast, e.args[2], step_cast)
                 self.writer.add_line(
                     f'for ({int_ty} {ctr} = {start_cast}; '
-                    f'{ctr} < {stop_cast}; {ctr} += {step_cast}) {{'
+                    f'{test}; {ctr} += {step_cast}) {{'
                 )
                 self.writer.indent()
                 self.writer.add_line(f'{append(ctr)};')
@@ -3698,9 +3699,10 @@ class CppEmitter(Visitor):
                 start = self._visit_expr(iterable.args[0], ctx)
                 stop = self._visit_expr(iterable.args[1], ctx)
                 step = self._visit_expr(iterable.args[2], ctx)
+                test = self._range3_test(target, stop, iterable.args[2], step)
                 return (
                     f'for ({decl} = {start}; '
-                    f'{target} < {stop}; {target} += {step})'
+                    f'{test}; {target} += {step})'
                 )
             case _:
                 iter_str = self._visit_expr(iterable, ctx)
@@ -3714,6 +3716,21 @@ class CppEmitter(Visitor):
                     f'for ({elt_decl} : '
                     f'{self._list_range(iter_ty, iter_str)})'
                 )
+
+    @staticmethod
+    def _range3_test(counter: str, stop: str, step: Expr, step_str: str) -> str:
+        """The continuation test of ``range(start, stop, step)``: a negative
+        step counts down to *stop*, as in Python."""
+        match step:
+            case Integer():
+                down: bool | None = step.val < 0
+            case Neg(arg=Integer()):
+                down = step.arg.val > 0
+            case _:
+                down = None
+        if down is None:
+            return f'(({step_str}) < 0 ? {counter} > {stop} : {counter} < {stop})'
+        return f'{counter} > {stop}' if down else f'{counter} < {stop}'
 
     def _underscore_counter_ty(self, iterable: Expr) -> str:
         """The C++ type for a discarded loop variable.
